@@ -139,8 +139,9 @@ def check_pair(case, ctx, c0d, c1d):
 
         ok, m = repeat_call(ctx, "miter", "miter", cg.tx.miter, (c0, c1, sarg, earg), {}, (ok, m))
     if not ok:
-        if isinstance(m, ValueError):
-            ctx.reject("miter_name_clash" if "already" in str(m) or "overlap" in str(m) else "miter_valueerror")
+        if isinstance(m, ValueError) and ("already" in str(m) or "overlap" in str(m)):
+            # a node of the arguments carries a name the miter needs for itself (sat, dif_<e>, c0_<n>, ...)
+            ctx.reject("miter_name_clash")
             return
         ctx.violation("miter_raised", f"miter raised {m!r}\n{getattr(m, '_tb', '')}")
         return
